@@ -67,7 +67,7 @@ namespace OP2Utility
 
 		for (int y = 0; y < height; ++y)
 		{
-			writer.Write(&pixels[y * pitch], bytesOfPixelsPerRow);
+			writer.Write(pixels.data() + y * pitch, bytesOfPixelsPerRow);
 			writer.Write(padding);
 		}
 	}
